@@ -14,7 +14,7 @@ NIPY_VERIF_REPO="$wt" /venv/bin/python /verif/tools/baseline.py > /tmp/evalseed-
 cd /verif
 out=$(NIPY_VERIF_REPO="$wt" VERIF_EVIDENCE_DIR=/tmp/seed-evidence ./check "$id" "$tier" 2>&1); rc=$?
 echo "$out" | grep -E "^VIOLATION|^KNOWN|^# (oracle|tie|widened|source)" | cut -c1-400
-git -C /repo worktree remove --force "$wt"
+git -C /repo worktree remove --force "$wt"; (cd /verif && /venv/bin/python -c "from harness.setup import regenerate; regenerate()" >/dev/null 2>&1)
 kind=$(echo "$out" | grep -q "^# oracle" && echo oracle || (echo "$out" | grep -q "^# tie" && echo tie-only || echo none))
 echo "SUMMARY $(basename $d) demo-HEAD=$a demo-patched=$b baseline=$c($(head -1 /tmp/evalseed-base.$$)) check-$id-$tier=$rc detected-by=$kind"
 rm -f /tmp/evalseed-demo.$$ /tmp/evalseed-base.$$
